@@ -3,8 +3,13 @@
 package nodeconf
 
 import (
+	"context"
+
 	"github.com/anyproto/go-chash"
 
+	commonaccount "github.com/anyproto/any-sync/accountservice"
+	"github.com/anyproto/any-sync/app"
+	"github.com/anyproto/any-sync/commonspace/object/accountdata"
 	rt "github.com/anyproto/any-sync/internal/verifrt"
 )
 
@@ -148,4 +153,121 @@ func VerifC18Responsible() {
 		rt.Reach("nonempty-set")
 	}
 	rt.Reach("done")
+}
+
+// ---- the service in front of the node configuration
+
+type vC18Cfg struct{ conf Configuration }
+
+func (c *vC18Cfg) Init(a *app.App) error       { return nil }
+func (c *vC18Cfg) Name() string                { return "config" }
+func (c *vC18Cfg) GetNodeConf() Configuration  { return c.conf }
+
+type vC18Acc struct{ id string }
+
+func (c *vC18Acc) Init(a *app.App) error             { return nil }
+func (c *vC18Acc) Name() string                      { return commonaccount.CName }
+func (c *vC18Acc) Account() *accountdata.AccountKeys { return &accountdata.AccountKeys{PeerId: c.id} }
+
+type vC18Source struct{}
+
+func (vC18Source) Init(a *app.App) error { return nil }
+func (vC18Source) Name() string          { return CNameSource }
+func (vC18Source) GetLast(ctx context.Context, currentId string) (Configuration, error) {
+	return Configuration{}, ErrConfigurationNotChanged // the source is unreachable / has nothing newer
+}
+
+type vC18Store struct {
+	has  bool
+	conf Configuration
+}
+
+func (s *vC18Store) Init(a *app.App) error { return nil }
+func (s *vC18Store) Name() string          { return CNameStore }
+func (s *vC18Store) GetLast(ctx context.Context, netId string) (Configuration, error) {
+	if !s.has {
+		return Configuration{}, ErrConfigurationNotFound
+	}
+	return s.conf, nil
+}
+func (s *vC18Store) SaveLast(ctx context.Context, c Configuration) error {
+	s.has, s.conf = true, c
+	return nil
+}
+
+type vC18Proto struct{}
+
+func (vC18Proto) Init(a *app.App) error                                { return nil }
+func (vC18Proto) Name() string                                         { return "verif.protochecker" }
+func (vC18Proto) IsNetworkNeedsUpdate(ctx context.Context) (bool, error) { return false, nil }
+
+// VerifC18Service: whatever the start-up path (no stored configuration, a stored one, a stored one that has to be
+// rewritten because the application configuration knows more coordinator addresses), the service answers
+// IsResponsible / NodeIds for the asking identity exactly as the responsible set says.
+func VerifC18Service() {
+	chash.VerifPick = func(ids []string, key string) uint64 {
+		args := make([]any, 0, len(ids)+1)
+		for _, id := range ids {
+			args = append(args, id)
+		}
+		args = append(args, key)
+		v := rt.UF8("chashpick", args...)
+		if len(ids) > 0 {
+			rt.Assume(int(v) < len(ids))
+		}
+		return uint64(v)
+	}
+	chash.VerifLog = nil
+	nTree := 1 + rt.Choose(4)
+	var nodes []Node
+	var treeIds []string
+	for i := 0; i < nTree; i++ {
+		id := "tree" + string(rune('0'+i))
+		nodes = append(nodes, Node{PeerId: id, Types: []NodeType{NodeTypeTree}, Addresses: []string{"a" + id}})
+		treeIds = append(treeIds, id)
+	}
+	coord := Node{PeerId: "coord", Types: []NodeType{NodeTypeCoordinator}, Addresses: []string{"c1"}}
+	appConf := Configuration{Id: "conf", NetworkId: "net", Nodes: append(append([]Node{}, nodes...), coord)}
+	store := &vC18Store{}
+	switch rt.Choose(4) {
+	case 1: // the same configuration is stored
+		store.has, store.conf = true, Configuration{Id: "conf", NetworkId: "net", Nodes: append([]Node{}, appConf.Nodes...)}
+	case 2: // the stored one lacks a coordinator address the application configuration has
+		appConf.Nodes[len(appConf.Nodes)-1].Addresses = []string{"c1", "c2"}
+		store.has, store.conf = true, Configuration{Id: "conf", NetworkId: "net", Nodes: append(append([]Node{}, nodes...), coord)}
+	case 3: // the stored one lacks the coordinator node altogether
+		store.has, store.conf = true, Configuration{Id: "conf", NetworkId: "net", Nodes: append([]Node{}, nodes...)}
+	}
+	self := []string{"tree0", "client", "coord"}[rt.Choose(3)]
+
+	a := new(app.App)
+	a.Register(&vC18Cfg{conf: appConf}).Register(&vC18Acc{id: self}).Register(vC18Source{}).Register(store).Register(vC18Proto{})
+	s := New().(*service)
+	rt.Assert(s.Init(a) == nil, "service-starts")
+
+	spaceId := "space." + []string{"0", "z", "1a"}[rt.Choose(3)]
+	var members []string
+	for _, m := range s.last.(*nodeConf).chash.GetMembers(ReplKey(spaceId)) {
+		members = append(members, m.Id())
+	}
+	want := ReplicationFactor
+	if len(treeIds) < want {
+		want = len(treeIds)
+	}
+	rt.Assert(len(members) == want, "responsible-count-is-min-rf-n")
+	rt.Assert(s.IsResponsible(spaceId) == vC18Contains(members, self), "service-responsible-iff-in-set")
+	ids := s.NodeIds(spaceId)
+	var exp []string
+	for _, m := range members {
+		if m != self {
+			exp = append(exp, m)
+		}
+	}
+	rt.Assert(len(ids) == len(exp), "service-nodeids-is-set-minus-self")
+	for i := range ids {
+		if i < len(exp) {
+			rt.Assert(ids[i] == exp[i], "service-nodeids-order-preserved")
+		}
+	}
+	rt.Reach("service")
 }
